@@ -9,7 +9,10 @@ import (
 // Backend "vdb": the in-memory goleveldb-memdb backend (validated against the ordered-map model by
 // C06) wrapped with what the node-level harnesses need: a registry of instances by directory, a
 // preload for cloning snapshots, a global log of durable write units across all instances, and a
-// "dead" switch that turns every later write into a no-op (the process has stopped).
+// crash point: when the log holds dieAfter units the content of every instance is captured as the
+// "crash image" (what a process stopped at that instant leaves behind). The node keeps running on
+// the live instances afterwards so that the harness can shut it down in an orderly way; only the
+// image is used for the restart.
 
 // VOp is one operation of a write unit.
 type VOp struct {
@@ -37,7 +40,8 @@ var vdbState struct {
 	log       []VUnit
 	logging   bool
 	dead      bool
-	dieAfter  int // when >= 0: become dead once the log holds this many units
+	dieAfter  int // when >= 0: capture the crash image once the log holds this many units
+	image     map[string][]VOp
 }
 
 func init() {
@@ -89,10 +93,16 @@ func VDBControl(logging bool, dieAfter int) []VUnit {
 	vdbState.logging = logging
 	vdbState.dead = false
 	vdbState.dieAfter = dieAfter
-	if dieAfter == 0 {
-		vdbState.dead = true
-	}
+	vdbState.image = nil
 	return old
+}
+
+// VDBCrashImage returns the content of every instance at the crash point (nil if the history ended
+// before the crash point was reached: then the final content is the image).
+func VDBCrashImage() map[string][]VOp {
+	vdbState.mu.Lock()
+	defer vdbState.mu.Unlock()
+	return vdbState.image
 }
 
 // VDBDead reports whether the crash switch has tripped.
@@ -102,20 +112,22 @@ func VDBDead() bool {
 	return vdbState.dead
 }
 
-// vdbCommit records one unit; it returns false when the write must be dropped (process dead).
-func vdbCommit(u VUnit) bool {
+// vdbCommit records one unit and applies it, atomically with respect to every other unit of every
+// instance (so that the crash image is exactly a prefix of the global write order).
+func vdbCommit(u VUnit, apply func()) {
 	vdbState.mu.Lock()
 	defer vdbState.mu.Unlock()
-	if vdbState.dead {
-		return false
+	if vdbState.dieAfter >= 0 && !vdbState.dead && len(vdbState.log) >= vdbState.dieAfter {
+		vdbState.dead = true
+		vdbState.image = map[string][]VOp{}
+		for dir, v := range vdbState.instances {
+			vdbState.image[dir] = v.Dump()
+		}
 	}
 	if vdbState.logging {
 		vdbState.log = append(vdbState.log, u)
 	}
-	if vdbState.dieAfter >= 0 && len(vdbState.log) >= vdbState.dieAfter {
-		vdbState.dead = true
-	}
-	return true
+	apply()
 }
 
 // Dump returns the whole content in key order.
@@ -130,14 +142,15 @@ func (v *VDB) Dump() []VOp {
 }
 
 func (v *VDB) point(del bool, sync bool, k, val []byte) error {
-	if !vdbCommit(VUnit{DB: v.Dir, Sync: sync, Ops: []VOp{{Del: del, K: cloneByte(k), V: cloneByte(val)}}}) {
-		return nil
-	}
-	if del {
-		_ = v.GoMemDB.Delete(k)
-		return nil
-	}
-	return v.GoMemDB.Set(k, val)
+	var err error
+	vdbCommit(VUnit{DB: v.Dir, Sync: sync, Ops: []VOp{{Del: del, K: cloneByte(k), V: cloneByte(val)}}}, func() {
+		if del {
+			_ = v.GoMemDB.Delete(k)
+			return
+		}
+		err = v.GoMemDB.Set(k, val)
+	})
+	return err
 }
 
 // Set logs and applies a point write.
@@ -179,16 +192,15 @@ func (b *vBatch) Write() error {
 	if len(b.ops) == 0 {
 		return nil
 	}
-	if !vdbCommit(VUnit{DB: b.v.Dir, Sync: b.sync, Ops: append([]VOp{}, b.ops...)}) {
-		return nil
-	}
-	for _, op := range b.ops {
-		if op.Del {
-			_ = b.v.GoMemDB.Delete(op.K)
-		} else {
-			_ = b.v.GoMemDB.Set(op.K, op.V)
+	vdbCommit(VUnit{DB: b.v.Dir, Sync: b.sync, Ops: append([]VOp{}, b.ops...)}, func() {
+		for _, op := range b.ops {
+			if op.Del {
+				_ = b.v.GoMemDB.Delete(op.K)
+			} else {
+				_ = b.v.GoMemDB.Set(op.K, op.V)
+			}
 		}
-	}
+	})
 	return nil
 }
 
